@@ -2,6 +2,7 @@ package main
 
 import (
 	"fmt"
+	"math"
 	"reflect"
 	"sort"
 	"strconv"
@@ -276,18 +277,36 @@ func randomWM(r *hx.Run, rng *hx.Rng, sub uint64) {
 		case "add":
 			a.arg = "1"
 			if m.kind() == "counter" {
-				a.arg = strconv.Itoa(hx.Pick(rng, []int{-2, -1, -1, 0, 1, 1, 2}))
+				ds := []int{-2, -1, -1, 0, 1, 1, 2}
+				// the model has unbounded integers: keep Update away from the wrap-around of the code's int
+				if v := m.value(); v > math.MaxInt/2 {
+					ds = []int{-2, -1, 0}
+				} else if v < math.MinInt/2 {
+					ds = []int{0, 1, 2}
+				}
+				a.arg = strconv.Itoa(hx.Pick(rng, ds))
 			}
 		case "set":
-			a.arg = strconv.Itoa(rng.Range(-1, 3))
+			a.arg = strconv.Itoa(rng.Range(-3, 3))
+			if rng.Chance(1, 3) {
+				// extreme values: the distance to the old value does not fit an int
+				a.arg = strconv.Itoa(hx.Pick(rng, []int{math.MaxInt, math.MinInt, math.MinInt + 2, math.MaxInt - 1}))
+				r.Count("counter-op:set-extreme")
+			}
 		case "below", "above":
 			a.arg = strconv.Itoa(rng.Range(0, 2))
+			if m.kind() == "counter" {
+				a.arg = strconv.Itoa(rng.Range(-2, 2))
+			}
 			if a.op == "below" && (rng.Chance(1, 2) || (m.kind() == "stack" && a.arg == "0")) {
 				a.arg = "1" // WaitIsZero / WaitIsEmpty (a stack never gets below 0)
 			}
 		}
 		if len(idle) == 1 && (a.op == "below" || a.op == "above" || a.op == "poporwait") && rng.Chance(2, 3) {
 			a.op, a.arg = "add", "1" // keep a mutator available
+			if m.kind() == "counter" && m.value() > math.MaxInt/2 {
+				a.arg = "-1" // not over the end of the code's int range (the model's integers are unbounded)
+			}
 		}
 		obs := w.arrive(a)
 		r.Line(fmt.Sprintf("w %d %s | %s", a.t, opLine(a), obs), "ok")
